@@ -1231,3 +1231,29 @@ package mail
 // signing render has the part at depth 0, the final render at depth 1: two different encoded-words would be two
 // different entities)
 //@ at mail.msgWriter.writePart mime.WordEncoder.Encode#* before assert[C08:description-encoded-the-same-at-every-depth] arg1 == mw.charset
+
+// ---------------------------------------------------------------------------
+// C09 (second half): termination of the parser's own loops and recursion, relative to the progress of the standard
+// library's readers (ghost `rem`, engine/stdlib/core.spec). Every loop of the 48 functions on the EML paths is a range
+// loop (ends by the semantics of range) except the two loops of parseEMLMultipart - the `for err == nil` loop and the
+// loop the `goto ReadNextPart` statements close - and the only cycle of the call graph is parseEMLBodyParts ->
+// parseEMLMultipart -> parseEMLBodyParts. Variants: what is left of the multipart stream (every iteration passes a
+// successful NextPart); measure of the recursion: the length of the buffer that is parsed (a nested multipart is a
+// piece of one part of the enclosing one).
+//@ func mail.readEMLFromReader (reader) (r0, r1, r2)
+//@   ensures[C09:progress] r2 == nil ==> r1 != nil && r1.rem >= 0
+//@ func mail.readEML (filePath) (r0, r1, r2)
+//@   ensures[C09:progress] r2 == nil ==> r1 != nil && r1.rem >= 0
+//@ func mail.parseEML (parsedMsg, bodybuf, msg) (err)
+//@   requires[C09:progress] bodybuf != nil && bodybuf.rem >= 0
+//@ func mail.parseEMLBodyParts (parsedMsg, bodybuf, msg) (err)
+//@   requires[C09:progress] bodybuf != nil && bodybuf.rem >= 0
+//@   decreases[C09:nested-multipart-is-shorter] 2 * bodybuf.rem + 1
+//@ func mail.parseEMLMultipart (params, bodybuf, msg) (err)
+//@   requires[C09:progress] bodybuf != nil && bodybuf.rem >= 0
+//@   decreases[C09:nested-multipart-is-shorter] 2 * bodybuf.rem
+//@   loop 1 invariant[C09:stream] multipartReader != nil && multipartReader.rem >= 0 && multipartReader.rem <= old(bodybuf.rem)
+//@   loop 1 decreases[C09:every-round-passes-a-part] multipartReader.rem
+//@   loop 2 invariant[C09:stream] multipartReader != nil && multipartReader.rem >= 0 && multipartReader.rem <= athead(1, multipartReader.rem)
+//@   loop 2 invariant[C09:stream] err == nil ==> multipartReader.rem < athead(1, multipartReader.rem) && multiPart.rem <= multipartReader.rem
+//@   loop 2 decreases[C09:every-round-passes-a-part] 2 * multipartReader.rem + (err == nil ? 1 : 0)
